@@ -17,7 +17,7 @@ import Golib.Model.C15Hex
 
 set_option linter.unusedSimpArgs false
 
-namespace Golib.C15
+namespace Golib.C15.Tie
 open Golib.GoSem
 
 /-- Lift a statement checked on the 256 byte values to every `BitVec 8`. -/
@@ -43,4 +43,391 @@ theorem trans_fromHexChar_eq (c : BitVec 8) :
   apply forall_byte
   decide +kernel
 
-end Golib.C15
+/-! ### `underscoreOK` -/
+
+section
+open Golib.Gen.Trans.C15 (underscoreOK_loop1)
+
+/-- Abstraction of a string / byte slice. -/
+def bytesOf (s : List (BitVec 8)) : List Nat := s.map BitVec.toNat
+
+/-- `saw` as the rune the code stores: `'^' '0' '_' '!'`. -/
+def sawRune : Saw → BitVec 32
+  | .start => 94#32 | .digit => 48#32 | .under => 95#32 | .other => 33#32
+
+/-- The model's `usLoop` with the early `return false` made explicit (`none`) and the final
+`saw` returned, as the translated loop does. -/
+def usLoopF (hex : Bool) : List Nat → Saw → Option Saw
+  | [], saw => some saw
+  | c :: rest, saw =>
+    if (48 ≤ c ∧ c ≤ 57) ∨ (hex = true ∧ 97 ≤ lower c ∧ lower c ≤ 102) then usLoopF hex rest .digit
+    else if c = 95 then
+      if saw != .digit then none else usLoopF hex rest .under
+    else if saw = .under then none
+    else usLoopF hex rest .other
+
+theorem usLoop_eq_F (hex : Bool) : ∀ (s : List Nat) (saw : Saw),
+    usLoop hex s saw = match usLoopF hex s saw with | none => false | some w => w != .under := by
+  intro s
+  induction s with
+  | nil => intro saw; simp [usLoop, usLoopF]
+  | cons c rest ih =>
+    intro saw
+    simp only [usLoop, usLoopF]
+    repeat' split
+    all_goals simp_all
+
+theorem lower_ok (c : BitVec 8) : Golib.Gen.Trans.C15.lower c = .ok (c ||| 32#8) := by
+  revert c; apply forall_byte; decide +kernel
+
+theorem lower_toNat (c : BitVec 8) : Golib.C15.lower c.toNat = (c ||| 32#8).toNat := by
+  revert c; apply forall_byte; decide +kernel
+
+theorem ite_ok {α : Type} (a : Prop) [Decidable a] (x y : α) :
+    (if a then Res.ok x else Res.ok y) = Res.ok (if a then x else y) := by
+  split <;> rfl
+
+theorem idx_append (pre : List (BitVec 8)) (c : BitVec 8) (rest : List (BitVec 8)) :
+    GoSem.idx (pre ++ c :: rest) (pre.length : Int) = .ok c := by
+  simp [GoSem.idx]
+
+def flowOf (n : Nat) (r : Option Saw) : Flow Bool (BitVec 32 × Int) :=
+  match r with
+  | none => .ret false
+  | some w => .done (sawRune w, (n : Int))
+
+theorem sawRune_inj (a b : Saw) : (sawRune a = sawRune b) ↔ a = b := by
+  cases a <;> cases b <;> decide
+
+theorem bv_beq {w : Nat} (c k : BitVec w) : (c == k) = decide (c.toNat = k.toNat) := by
+  by_cases h : c = k
+  · subst h; simp
+  · have : c.toNat ≠ k.toNat := fun e => h (BitVec.eq_of_toNat_eq e)
+    simp [h, this]
+
+theorem sawRune_beq (a b : Saw) : (sawRune a == sawRune b) = decide (a = b) := by
+  cases a <;> cases b <;> decide
+theorem sawRune_bne (a b : Saw) : (sawRune a != sawRune b) = decide (a ≠ b) := by
+  cases a <;> cases b <;> decide
+
+theorem us_loop_eq (hex : Bool) (rest : List (BitVec 8)) :
+    ∀ (pre : List (BitVec 8)) (saw : Saw) (fuel : Nat), rest.length < fuel →
+      underscoreOK_loop1 fuel (pre ++ rest) hex (sawRune saw) (pre.length : Int)
+        = .ok (flowOf (pre.length + rest.length) (usLoopF hex (bytesOf rest) saw)) := by
+  induction rest with
+  | nil =>
+    intro pre saw fuel hf
+    obtain ⟨f, rfl⟩ : ∃ f, fuel = f + 1 := ⟨fuel - 1, by simp at hf; omega⟩
+    simp [underscoreOK_loop1, bytesOf, usLoopF, flowOf]
+  | cons c rest ih =>
+    intro pre saw fuel hf
+    obtain ⟨f, rfl⟩ : ∃ f, fuel = f + 1 := ⟨fuel - 1, by simp at hf; omega⟩
+    have hf' : rest.length < f := by simp at hf; omega
+    have hstep := fun w => ih (pre ++ [c]) w f hf'
+    simp only [List.append_assoc, List.singleton_append, List.length_append, List.length_singleton,
+      Int.natCast_add, Int.natCast_one] at hstep
+    have hlen : (pre.length : Int) < Int.ofNat (pre ++ c :: rest).length := by simp; omega
+    have hd : sawRune .digit = 48#32 := rfl
+    have hu : sawRune .under = 95#32 := rfl
+    have ho : sawRune .other = 33#32 := rfl
+    unfold underscoreOK_loop1
+    simp only [hlen, decide_true, if_true, idx_append, lower_ok, bind, pure, Res.bind_ok', ite_ok,
+      bytesOf, List.map_cons, usLoopF, lower_toNat, ← hd, ← hu, ← ho, hstep]
+    have e : pre.length + (c :: rest).length = pre.length + 1 + rest.length := by
+      simp only [List.length_cons]; omega
+    rw [e]
+    congr 1
+    simp only [sawRune_beq, sawRune_bne]
+    clear hstep ih hd hu ho hlen e hf
+    simp only [ge_iff_le, gt_iff_lt, BitVec.le_def, BitVec.lt_def, BitVec.toNat_ofNat, bv_beq, bne_iff_ne, beq_iff_eq, ne_eq, sawRune_inj, decide_eq_true_eq,
+      Nat.reducePow, Nat.reduceMod]
+    generalize (c ||| 32#8).toNat = l
+    generalize c.toNat = cn
+    cases hex <;> repeat' split
+    all_goals try simp only [Bool.not_eq_true', Bool.not_eq_false', Bool.not_eq_false, Bool.and_eq_true, Bool.or_eq_true,
+      Bool.and_eq_false_iff, Bool.or_eq_false_iff, decide_eq_true_eq, decide_eq_false_iff_not, Bool.false_eq_true,
+      Bool.true_eq_false, false_and, true_and, or_false, false_or, Classical.not_not, not_false_eq_true,
+      not_true_eq_false] at *
+    all_goals first
+      | rfl
+      | (simp only [flowOf]; done)
+      | (exfalso; omega)
+      | contradiction
+      | (subst_vars; simp only [flowOf]; done)
+      | (subst_vars; contradiction)
+
+theorem slice_tail (c : BitVec 8) (t : List (BitVec 8)) :
+    GoSem.slice (c :: t) (1 : Int) (Int.ofNat (c :: t).length) = .ok t := by
+  simp [GoSem.slice]; omega
+
+theorem isPrefixLetter_bv (c : BitVec 8) :
+    isPrefixLetter c.toNat = ((c ||| 32#8) == 98#8 || (c ||| 32#8) == 111#8 || (c ||| 32#8) == 120#8) := by
+  revert c; apply forall_byte; decide +kernel
+
+theorem lower120_bv (c : BitVec 8) : decide (Golib.C15.lower c.toNat = 120) = ((c ||| 32#8) == 120#8) := by
+  revert c; apply forall_byte; decide +kernel
+
+/-- What remains of `underscoreOK` once the sign is stripped (model side). -/
+def usBody (s : List Nat) : Bool :=
+  match s with
+  | 48 :: c1 :: rest =>
+    if isPrefixLetter c1 then usLoop (lower c1 = 120) rest .digit
+    else usLoop false s .start
+  | _ => usLoop false s .start
+
+theorem usBody_48 (c1 : Nat) (rest : List Nat) :
+    usBody (48 :: c1 :: rest) =
+      if isPrefixLetter c1 then usLoop (lower c1 = 120) rest .digit else usLoop false (48 :: c1 :: rest) .start := rfl
+
+theorem usBody_ne48 (a : Nat) (t : List Nat) (h : a ≠ 48) : usBody (a :: t) = usLoop false (a :: t) .start := by
+  unfold usBody
+  split
+  · rename_i heq
+    simp only [List.cons.injEq] at heq
+    exact absurd heq.1 h
+  · rfl
+
+theorem underscoreOK_eq_body (s : List Nat) :
+    Golib.C15.underscoreOK s = usBody (match s with
+      | c :: rest => if c = 45 ∨ c = 43 then rest else s
+      | [] => s) := by
+  unfold Golib.C15.underscoreOK usBody
+  rfl
+
+theorem idx0 (c : BitVec 8) (t : List (BitVec 8)) : GoSem.idx (c :: t) (0 : Int) = .ok c := by
+  simp [GoSem.idx]
+theorem idx1 (a c : BitVec 8) (t : List (BitVec 8)) : GoSem.idx (a :: c :: t) (1 : Int) = .ok c := by
+  simp [GoSem.idx]
+
+/-- `x >>= R` when `x` is a value and `R` is known pointwise. -/
+theorem bind_ok_of {α β : Type} {x : Res α} {R : α → Res β} (g : α → β) (a : α)
+    (hx : x = .ok a) (hR : ∀ a', R a' = .ok (g a')) : x.bind R = .ok (g a) := by
+  subst hx; exact hR a
+
+theorem bind_ok_of₂ {α β γ : Type} {x : Res α} {y : α → Res β} {R : β → Res γ} (g : β → γ) (b : β)
+    (hxy : x.bind y = .ok b) (hR : ∀ b', R b' = .ok (g b')) :
+    x.bind (fun a => (y a).bind R) = .ok (g b) := by
+  cases x with
+  | ok a => simp only [Res.bind_ok'] at hxy ⊢; exact bind_ok_of g b hxy hR
+  | panic => simp at hxy
+  | fuel => simp at hxy
+
+/-- The optional sign, stripped: what the code's first `if` leaves in `s`. -/
+def stripSign (s : List (BitVec 8)) : List (BitVec 8) :=
+  match s with
+  | c :: t => if c = 45#8 ∨ c = 43#8 then t else s
+  | [] => s
+
+theorem underscoreOK_eq_body' (s : List (BitVec 8)) :
+    Golib.C15.underscoreOK (bytesOf s) = usBody (bytesOf (stripSign s)) := by
+  rw [underscoreOK_eq_body]
+  match s with
+  | [] => rfl
+  | c :: t =>
+    have h45 : (c.toNat = 45) ↔ c = 45#8 := by rw [BitVec.toNat_eq]; rfl
+    have h43 : (c.toNat = 43) ↔ c = 43#8 := by rw [BitVec.toNat_eq]; rfl
+    simp only [bytesOf, List.map_cons, stripSign, h45, h43]
+    split <;> rfl
+
+theorem sawRune_bne95 (w : Saw) : (sawRune w != 95#32) = (w != Saw.under) := by
+  cases w <;> decide
+
+/-- closes `match (match r with …) with …` after the loop lemma has been used: case on the model's
+loop result. -/
+macro "fin_tac" : tactic => `(tactic|
+  (generalize usLoopF _ _ _ = r
+   cases r <;> simp [sawRune_bne95]))
+
+theorem trans_underscoreOK_eq (s : List (BitVec 8)) :
+    Golib.Gen.Trans.C15.underscoreOK s = .ok (Golib.C15.underscoreOK (bytesOf s)) := by
+  rw [underscoreOK_eq_body']
+  unfold Golib.Gen.Trans.C15.underscoreOK
+  have hs : sawRune .start = 94#32 := rfl
+  have hd : sawRune .digit = 48#32 := rfl
+  simp only [bind, pure]
+  refine bind_ok_of₂ (fun s' => usBody (bytesOf s')) (stripSign s) ?_ ?_
+  · -- the sign
+    match s with
+    | [] => simp [stripSign]
+    | c :: t =>
+      have hlen1 : decide (Int.ofNat (c :: t).length ≥ 1) = true := by simp; omega
+      simp only [idx0, slice_tail, hlen1, Res.bind_ok', ite_ok, if_true, stripSign]
+      by_cases h1 : c = 45#8 <;> by_cases h2 : c = 43#8 <;> simp [h1, h2]
+  · -- prefix and number proper
+    intro s'
+    have h0 := us_loop_eq false s' [] .start (s'.length + 1) (by omega)
+    simp only [List.nil_append, List.length_nil, Int.natCast_zero, Nat.zero_add, hs] at h0
+    match s' with
+    | [] =>
+      simp only [List.length_nil, Nat.zero_add] at h0
+      simp [bytesOf, usBody, usLoop_eq_F, h0, flowOf]
+      fin_tac
+    | [a] =>
+      simp only [List.length_cons, List.length_nil, Nat.zero_add, Nat.reduceAdd] at h0
+      simp [bytesOf, usBody, usLoop_eq_F, h0, flowOf]
+      fin_tac
+    | a :: b :: r =>
+      have h2 : ∀ hex, underscoreOK_loop1 ((a :: b :: r).length + 1) (a :: b :: r) hex (sawRune .digit) (2 : Int)
+          = .ok (flowOf (2 + r.length) (usLoopF hex (bytesOf r) .digit)) :=
+        fun hex => us_loop_eq hex r [a, b] .digit ((a :: b :: r).length + 1) (by simp only [List.length_cons]; omega)
+      have hlen2 : decide (Int.ofNat (a :: b :: r).length ≥ 2) = true := by simp; omega
+      simp only [hlen2, if_true, idx0, idx1, lower_ok, Res.bind_ok', ite_ok]
+      simp only [List.length_cons, List.length_nil, Nat.zero_add, Nat.reduceAdd, List.cons_append, List.nil_append,
+        hd, bytesOf, List.map_cons] at h0 h2 ⊢
+      by_cases ha : a = 48#8
+      · subst ha
+        simp only [BitVec.toNat_ofNat, Nat.reducePow, Nat.reduceMod, usBody_48, isPrefixLetter_bv, lower120_bv, usLoop_eq_F]
+        generalize (b ||| 32#8 == 98#8) = p1
+        generalize (b ||| 32#8 == 111#8) = p2
+        generalize (b ||| 32#8 == 120#8) = p3 at h2 ⊢
+        cases p1 <;> cases p2 <;> cases p3 <;>
+          simp only [beq_self_eq_true, Bool.not_true, Bool.not_false, Bool.false_eq_true, if_true, if_false, Bool.or_true,
+            Bool.or_false, Bool.true_or, h0, h2, Res.bind_ok', flowOf, BitVec.toNat_ofNat, Nat.reducePow, Nat.reduceMod] <;>
+          fin_tac
+      · have hne : a.toNat ≠ 48 := fun e => ha (BitVec.eq_of_toNat_eq (by simpa using e))
+        have hb : (a == 48#8) = false := by simp [ha]
+        simp only [hb, Bool.false_eq_true, if_false, h0, Res.bind_ok', flowOf, usBody_ne48 _ _ hne, usLoop_eq_F]
+        fin_tac
+
+end
+
+/-! ### `hexEncode`, `HexEncode` -/
+
+section
+open Golib.Gen.Trans.C15 (hexEncode_loop1)
+
+/-- The two hex digits of a byte, through the model's table (`0` where the table is too short:
+then `hexEncode?` is `none` and the tie below cannot be proved). -/
+def hiBV (c : BitVec 8) : BitVec 8 := BitVec.ofNat 8 ((hextable[c.toNat >>> 4]?).getD 0)
+def loBV (c : BitVec 8) : BitVec 8 := BitVec.ofNat 8 ((hextable[c.toNat &&& 0x0f]?).getD 0)
+
+/-- The encoded text on the `BitVec` side. -/
+def encBV : List (BitVec 8) → List (BitVec 8)
+  | [] => []
+  | c :: rest => hiBV c :: loBV c :: encBV rest
+
+theorem encBV_length (s : List (BitVec 8)) : (encBV s).length = 2 * s.length := by
+  induction s with
+  | nil => rfl
+  | cons c rest ih => simp only [encBV, List.length_cons, ih]; omega
+
+theorem encBV_append (a b : List (BitVec 8)) : encBV (a ++ b) = encBV a ++ encBV b := by
+  induction a with
+  | nil => rfl
+  | cons c rest ih => simp [encBV, ih]
+
+/-- The model's table lookups succeed on every byte, with these digits (256 cases). -/
+theorem table_byte (c : BitVec 8) :
+    hextable[c.toNat >>> 4]? = some (hiBV c).toNat ∧ hextable[c.toNat &&& 0x0f]? = some (loBV c).toNat := by
+  revert c; apply forall_byte; decide +kernel
+
+/-- The model's `hexEncode?` never panics and is `encBV` up to the abstraction. -/
+theorem hexEncode?_encBV (s : List (BitVec 8)) : hexEncode? (bytesOf s) = some (bytesOf (encBV s)) := by
+  induction s with
+  | nil => rfl
+  | cons c rest ih =>
+    have := table_byte c
+    simp only [bytesOf, List.map_cons] at ih ⊢
+    simp only [hexEncode?, this.1, this.2, ih, encBV, List.map_cons]
+
+theorem setIdx_append {α : Type} (out : List α) (x v : α) (tail : List α) (j : Int) (hj : j = (out.length : Int)) :
+    GoSem.setIdx (out ++ x :: tail) j v = .ok (out ++ v :: tail) := by
+  subst hj; simp [GoSem.setIdx]
+
+theorem hexEncode_loop_eq (rest : List (BitVec 8)) :
+    ∀ (pre out tail : List (BitVec 8)) (fuel : Nat), out.length = 2 * pre.length →
+      2 * rest.length ≤ tail.length → rest.length < fuel →
+      hexEncode_loop1 fuel (pre ++ rest) (out ++ tail) ((2 * pre.length : Nat) : Int) (pre.length : Int)
+        = .ok (out ++ encBV rest ++ tail.drop (2 * rest.length),
+               ((2 * (pre.length + rest.length) : Nat) : Int), ((pre.length + rest.length : Nat) : Int)) := by
+  induction rest with
+  | nil =>
+    intro pre out tail fuel ho ht hf
+    obtain ⟨f, rfl⟩ : ∃ f, fuel = f + 1 := ⟨fuel - 1, by simp at hf; omega⟩
+    simp [hexEncode_loop1, encBV]
+  | cons c rest ih =>
+    intro pre out tail fuel ho ht hf
+    obtain ⟨f, rfl⟩ : ∃ f, fuel = f + 1 := ⟨fuel - 1, by simp at hf; omega⟩
+    have hf' : rest.length < f := by simp at hf; omega
+    obtain ⟨t0, t1, tail', rfl⟩ : ∃ t0 t1 tail', tail = t0 :: t1 :: tail' := by
+      match tail, ht with
+      | t0 :: t1 :: tail', _ => exact ⟨t0, t1, tail', rfl⟩
+      | [_], h => simp at h; omega
+      | [], h => simp at h
+    have hstep := ih (pre ++ [c]) (out ++ [hiBV c, loBV c]) tail' f (by simp; omega) (by simp at ht; omega) hf'
+    have hlen : (pre.length : Int) < Int.ofNat (pre ++ c :: rest).length := by simp; omega
+    unfold hexEncode_loop1
+    simp only [hlen, decide_true, if_true, idx_append, bind, pure, Res.bind_ok']
+    -- the table of the code (whatever its text) agrees with the model's table on the 16 nibbles
+    generalize hT : @GoSem.idxN (BitVec 8) _ = look
+    have hk : ∀ k, k < 16 → look k = Res.ok (BitVec.ofNat 8 ((hextable[k]?).getD 0)) := by
+      rw [← hT]; decide
+    have hhiN : c.toNat >>> 4 < 16 := by
+      have := c.isLt; simp only [Nat.shiftRight_eq_div_pow]; omega
+    have hloN : c.toNat &&& 15 < 16 := Nat.lt_of_le_of_lt Nat.and_le_right (by decide)
+    have hhi : look (c.toNat >>> 4) = Res.ok (hiBV c) := hk _ hhiN
+    have hlo : look (c.toNat &&& 15) = Res.ok (loBV c) := hk _ hloN
+    simp only [BitVec.toNat_ushiftRight, BitVec.toNat_and, BitVec.toNat_ofNat, Nat.reducePow, Nat.reduceMod, hhi, hlo]
+    -- the two writes, in whichever order
+    have hs0 : ∀ (v x : BitVec 8) (tl : List (BitVec 8)),
+        GoSem.setIdx (out ++ x :: tl) ((2 * pre.length : Nat) : Int) v = .ok (out ++ v :: tl) :=
+      fun v x tl => setIdx_append out x v tl _ (by omega)
+    have hs1 : ∀ (v x y : BitVec 8) (tl : List (BitVec 8)),
+        GoSem.setIdx (out ++ x :: y :: tl) (((2 * pre.length : Nat) : Int) + 1) v = .ok (out ++ x :: v :: tl) := by
+      intro v x y tl
+      have := setIdx_append (out ++ [x]) y v tl (((2 * pre.length : Nat) : Int) + 1)
+        (by simp only [List.length_append, List.length_singleton]; omega)
+      simpa only [List.append_assoc, List.singleton_append] using this
+    simp only [Res.bind_ok', hs0, hs1]
+    have e1 : ((2 * pre.length : Nat) : Int) + 2 = ((2 * (pre ++ [c]).length : Nat) : Int) := by
+      simp only [List.length_append, List.length_singleton]; omega
+    have e2 : (pre.length : Int) + 1 = (((pre ++ [c]).length : Nat) : Int) := by
+      simp only [List.length_append, List.length_singleton]; omega
+    have e3 : List.drop (2 * (c :: rest).length) (t0 :: t1 :: tail') = List.drop (2 * rest.length) tail' := by
+      have : 2 * (c :: rest).length = 2 * rest.length + 1 + 1 := by simp only [List.length_cons]; omega
+      rw [this]; rfl
+    rw [e1, e2, e3]
+    simp only [List.append_assoc, List.singleton_append, List.cons_append, List.nil_append] at hstep
+    rw [hstep]
+    simp only [encBV, List.length_append, List.length_singleton, List.length_cons, List.length_nil, List.cons_append,
+      List.append_assoc]
+    congr 4 <;> omega
+
+/-- `hexEncode(dst, src)` with room for the text: writes `encBV src` over the first `2·len(src)`
+bytes of `dst`, keeps the rest, returns `2·len(src)`. -/
+theorem trans_hexEncode_eq (dst src : List (BitVec 8)) (h : 2 * src.length ≤ dst.length) :
+    Golib.Gen.Trans.C15.hexEncode dst src
+      = .ok (((2 * src.length : Nat) : Int), encBV src ++ dst.drop (2 * src.length)) := by
+  unfold Golib.Gen.Trans.C15.hexEncode
+  have hl := hexEncode_loop_eq src [] [] dst (src.length + 1) rfl h (by omega)
+  simp only [List.nil_append, List.length_nil, Nat.mul_zero, Int.natCast_zero, Nat.zero_add] at hl
+  simp only [bind, pure, hl, Res.bind_ok']
+  -- `len(src) * 2` however it is written
+  have hlen : ∀ x : Int, x = ((2 * src.length : Nat) : Int) →
+      (Res.ok (x, encBV src ++ dst.drop (2 * src.length)) : Res (Int × List (BitVec 8)))
+        = .ok (((2 * src.length : Nat) : Int), encBV src ++ dst.drop (2 * src.length)) := by
+    intro x hx; rw [hx]
+  apply hlen
+  simp only [Int.ofNat_eq_natCast, Int.natCast_mul]; omega
+
+theorem makeSlice_ok (n : Nat) : GoSem.makeSlice 0#8 (n : Int) = .ok (List.replicate n 0#8) := by
+  simp [GoSem.makeSlice]
+
+/-- `HexEncode(s)`: never panics; the result is the model's text. -/
+theorem trans_HexEncode_eq (s : List (BitVec 8)) :
+    Golib.Gen.Trans.C15.HexEncode s = .ok (encBV s) := by
+  unfold Golib.Gen.Trans.C15.HexEncode
+  have hm : (Int.ofNat s.length) * (2 : Int) = ((2 * s.length : Nat) : Int) := by
+    simp only [Int.ofNat_eq_natCast, Int.natCast_mul]; omega
+  have he := trans_hexEncode_eq (List.replicate (2 * s.length) 0#8) s (by simp)
+  simp only [bind, pure, hm, makeSlice_ok, Res.bind_ok', he]
+  simp
+
+theorem ofBytes_bytesOf (s : List (BitVec 8)) : (bytesOf s).map (BitVec.ofNat 8) = s := by
+  induction s with
+  | nil => rfl
+  | cons c rest ih => simp only [bytesOf, List.map_cons, List.map_map] at ih ⊢; simp [ih]
+
+end
+
+end Golib.C15.Tie
